@@ -25,7 +25,7 @@ def setup(ctx: common.Ctx, prop: str):
     if not ok:
         ctx.fail('tie', 'translator', f'translate/gen.py cannot read models/generated: {msg}')
     ctx.notes.append(f'translator: {msg}')
-    ctx.require_coq([f'properties/{prop}'], extra_targets=['GeneratedWf', 'TreeRun', 'TreeDefs'])
+    ctx.require_coq([f'properties/{prop}'], extra_targets=['GeneratedWf', 'TreeRun', 'TreeDefs', 'TreeWF'])
 
 
 def correspondence(ctx: common.Ctx, prop: str):
